@@ -146,6 +146,27 @@ FUNCS = [
     ("C18", "dataiter/geojson.py", "GeoJSON.write", [], "GeoJSON_write"),
     ("C18", "dataiter/geojson.py", "GeoJSON._check_raw_data", [], "GeoJSON_check_raw_data"),
     ("C18", "dataiter/geojson.py", "GeoJSON._check_raw_feature", [], "GeoJSON_check_raw_feature"),
+    ("C07", "dataiter/aggregate.py", "yield_groups", [], "agg_yield_groups"),
+    ("C07", "dataiter/aggregate.py", "handle_na", [], "agg_handle_na"),
+    ("C07", "dataiter/aggregate.py", "generic", [], "agg_generic"),
+    ("C07", "dataiter/aggregate.py", "nth_apply", [], "agg_nth_apply"),
+    ("C07", "dataiter/aggregate.py", "mode_apply", [], "agg_mode_apply"),
+    ("C07", "dataiter/aggregate.py", "mode1", [], "agg_mode1"),
+    ("C07", "dataiter/aggregate.py", "count_unique_apply", [], "agg_count_unique_apply"),
+    ("C07", "dataiter/aggregate.py", "quantile_apply", [], "agg_quantile_apply"),
+    ("C07", "dataiter/aggregate.py", "std", [], "agg_std"),
+    ("C07", "dataiter/aggregate.py", "var", [], "agg_var"),
+    ("C07", "dataiter/aggregate.py", "sum", [], "agg_sum"),
+    ("C07", "dataiter/aggregate.py", "nth", [], "agg_nth"),
+    ("C07", "dataiter/aggregate.py", "median", [], "agg_median"),
+    ("C07", "dataiter/aggregate.py", "select", [], "agg_select"),
+    ("C08", "dataiter/aggregate.py", "yield_groups_numba", [], "agg_yield_groups_numba"),
+    ("C08", "dataiter/aggregate.py", "generic_numba", [], "agg_generic_numba"),
+    ("C08", "dataiter/aggregate.py", "nth_apply_numba", [], "agg_nth_apply_numba"),
+    ("C08", "dataiter/aggregate.py", "mode_apply_numba", [], "agg_mode_apply_numba"),
+    ("C08", "dataiter/aggregate.py", "count_unique_apply_numba", [], "agg_count_unique_apply_numba"),
+    ("C08", "dataiter/aggregate.py", "quantile_apply_numba", [], "agg_quantile_apply_numba"),
+    ("C08", "dataiter/aggregate.py", "is_na_numba", [], "agg_is_na_numba"),
     ("C11", "dataiter/vector.py", "Vector.sort", [], "Vector_sort"),
     ("C11", "dataiter/vector.py", "Vector.rank", [], "Vector_rank"),
     ("C11", "dataiter/vector.py", "Vector.unique", [], "Vector_unique"),
@@ -306,6 +327,9 @@ class Translator:
                     args.append(self.term(a, env))
             for kw in e.keywords:
                 args.append(f"(Term.app {lean_str('=' + (kw.arg or '**'))} [{self.term(kw.value, env)}])")
+            if not isinstance(e.func, (ast.Name, ast.Attribute)):
+                # the callee is itself computed (`select(f, data, x)(np.std)`): translated, not quoted
+                return f"(Term.app \"call\" [{', '.join([self.term(e.func, env)] + args)}])"
             if isinstance(e.func, ast.Name) and e.func.id in env and env[e.func.id][0] == "term":
                 # a call of a local that holds a callable (e.g. `extract = operator.itemgetter(...)`; `extract(item)`)
                 return f"(Term.app \"call\" [{', '.join([env[e.func.id][1]] + args)}])"
